@@ -10,6 +10,7 @@
 #include <thread>
 
 #include "log.h"
+#include "verif_hook.h"
 
 #include "glog/logging.h"
 
@@ -23,6 +24,8 @@ namespace yakushima {
 }
 
 [[maybe_unused]] static void sleepMs(size_t ms) {
+    YK_VP(k_sleep, nullptr, ms, 0);
+    YK_VP_SLEEP(ms)
     std::this_thread::sleep_for(std::chrono::milliseconds(ms));
 }
 
